@@ -2,6 +2,7 @@
 import atexit
 import warnings
 
+import exccat
 import pyspec
 import pyval
 from lib import cstr, cbool, clist, cz
@@ -82,11 +83,13 @@ def generate(rng, tier):
             events.append(['call', 0])
         out.append({'kind': 'history', 'start': rng.choice(['empty', 'warm', 'warm', 'overflow']), 'pool': pool, 'events': events})
     names = ['list-plus', 'list-plus-t', 'list-times', 'set-or', 'set-minus', 'scope-plus', 'dict-spec-arith', 'sum-lists', 'flatten', 'merge',
-             'group', 'iter-all', 'default-list', 'default-dict-t', 'call-list-arg', 'invoke-specs', 'bind-list', 'check-default', 'match-default']
+             'group', 'iter-all', 'default-list', 'default-dict-t', 'call-list-arg', 'invoke-specs', 'bind-list', 'check-default', 'match-default',
+             'twin-a', 'twin-b', 'twin-k', 'twin-k-raw']
     for _ in range(12 if tier == 'quick' else 120):
         pick = rng.sample(names, rng.randint(2, 5))
         out.append({'kind': 'scenarios', 'names': pick, 'order': [rng.choice(pick) for _ in range(rng.randint(3, 9))]})
     out.append({'kind': 'scenarios', 'names': names, 'order': names + names})
+    out.append({'kind': 'scenarios', 'names': names, 'order': list(reversed(names)) + names})
     for k in (0, 1, 3):
         out.append({'kind': 'registry', 'lookups_before': k})
     return out
@@ -273,6 +276,12 @@ def _scenarios():
         'bind-list': (lambda: {'n': 1}, lambda: (S(x=[T['n'], [T['n']]]), S.x), None),
         'check-default': (lambda: {'n': 0}, lambda: ('n', Check(default=[])), None),
         'match-default': (lambda: {'n': 0}, lambda: Match({'n': str}, default={'bad': [T]}), None),
+        # three failing calls whose exception classes are different objects with one __name__: the class seen by the caller
+        # may not depend on which of them an earlier call raised
+        'twin-a': (lambda: {'n': 0}, lambda: ('n', exccat.raiser('UTwinA')), None),
+        'twin-b': (lambda: {'n': 0}, lambda: ('n', exccat.raiser('UTwinB')), None),
+        'twin-k': (lambda: {'n': 0}, lambda: Coalesce(('n', exccat.raiser('UTwinK')), skip_exc=KeyError, default='caught as KeyError'), None),
+        'twin-k-raw': (lambda: {'n': 0}, lambda: ('n', exccat.raiser('UTwinK')), None),
     }
 
 
@@ -294,7 +303,8 @@ def _outcome(fn):
     try:
         return {'ok': _freeze_any(fn())}
     except Exception as e:
-        return {'raise': type(e).__name__}
+        return {'raise': type(e).__name__,
+                'isa': [n for n in exccat.USER_NAMES + ['KeyError', 'ValueError', 'LookupError', 'GlomError'] if isinstance(e, exccat.cls(n))]}
 
 
 def scenario_outcome(name):
